@@ -32,8 +32,8 @@ Theorem C15_dry_run_uninitialised_destination : forall frepr o deep sdir dsp,
 Proof. exact dry_run_uninitialised_current. Qed.
 Print Assumptions C15_dry_run_uninitialised_destination.
 
-(* the "writes nothing" half also for the pooled variant (any set of jobs reached), given a sequentially
-   consistent ByKey — the state ByKey shares between the worker threads is open known finding 7 *)
+(* the "writes nothing" half also for the pooled variant (any set of jobs reached); since c3330a7 ByKey collects
+   its conflicts per call, so the jobs of a pool no longer influence each other through the shared instance *)
 Theorem C15_dry_run_no_change_pooled : forall frepr all o src dst,
   o_dry_run o = true -> docs_wf src -> fst (sync_projects_m frepr cfg_current all o src dst) = dst.
 Proof. exact dry_run_pooled_current. Qed.
